@@ -171,12 +171,71 @@ let run_dry_line id =
   | "V" -> decr pos; run_fk_line id
   | t -> failwith ("dry line kind " ^ t)
 
+(* lock stage (LockModel.v): "L nsteps {P e|i <expiry> | R now timeout mode n crash k dir}" |
+   "C tA TA tB TB mode n before-exec k dir" *)
+let show_lock = function None -> "none" | Some None -> "invalid" | Some (Some _) -> "held"
+let show_cout = function
+  | CLockTaken -> "locktaken" | CLockInvalid -> "lockinvalid" | CCrashed -> "crash"
+  | CUnlockErr _ -> "unlockerr" | CRan o -> show_exit o
+let run_lock_line id =
+  match next () with
+  | "L" ->
+    let nsteps = next_int () in
+    let st = ref (None, { d_journal = []; d_tbl = [] }) in
+    for i = 0 to nsteps - 1 do
+      match next () with
+      | "P" ->
+        let kind = next () in
+        let e = next_int () in
+        st := ((if kind = "i" then Some None else Some (Some (n_of_int e))), snd !st);
+        Printf.printf "%s step%d exit=planted lock=%s %s\n" id i (show_lock (fst !st)) (show_db (snd !st))
+      | "R" ->
+        let now = next_int () in
+        let timeout = next_int () in
+        let mode = mode_of (next ()) in
+        let n = next_int () in
+        let crash = next () in
+        let k = next_int () in
+        let dir = parse_dir () in
+        let cr = match crash with "-" -> CNo | "acquire" -> CInAcquire | p -> CAt (point_of p, nat_of_int k) in
+        let (o, s') = locked_apply heq hs (n_of_int now) (n_of_int timeout) cr mode (nat_of_int n) dir !st in
+        st := s';
+        Printf.printf "%s step%d exit=%s lock=%s %s\n" id i (show_cout o) (show_lock (fst s')) (show_db (snd s'))
+      | t -> failwith ("lock step kind " ^ t)
+    done
+  | "C" ->
+    let ta = next_int () in let tta = next_int () in let tb = next_int () in let ttb = next_int () in
+    let _mode = next () in
+    let n = next_int () in
+    let crash = next () in
+    let k = next_int () in
+    let dir = parse_dir () in
+    let d0 = { d_journal = []; d_tbl = [] } in
+    let ((_, _), tr) = apply_run heq hs TxNone (nat_of_int n) dir d0 in
+    (match crash_state tr (point_of crash) (nat_of_int k) with
+     | None -> Printf.printf "%s unreachable\n" id
+     | Some dc ->
+       let la = Some (Some (n_of_int (ta + tta))) in
+       let (ob, (lb, db)) = locked_apply heq hs (n_of_int tb) (n_of_int ttb) CNo TxNone (nat_of_int n) dir (la, dc) in
+       Printf.printf "%s B exit=%s lock=%s %s\n" id (show_cout ob) (show_lock lb) (show_db db);
+       (match concurrent_apply heq hs (n_of_int ta) (n_of_int tta) (n_of_int tb) (n_of_int ttb) (point_of crash) (nat_of_int k) (nat_of_int n) dir d0 with
+        | Some ((oa, _), (l, d)) -> Printf.printf "%s A exit=%s lock=%s %s\n" id (show_cout oa) (show_lock l) (show_db d)
+        | None -> Printf.printf "%s unreachable\n" id))
+  | t -> failwith ("lock line kind " ^ t)
+
 let () =
+  let lock_stage = Array.length Sys.argv > 1 && Sys.argv.(1) = "lock" in
   let dry_stage = Array.length Sys.argv > 1 && Sys.argv.(1) = "dry" in
   let fk_stage = Array.length Sys.argv > 1 && Sys.argv.(1) = "fk" in
   (try
     while true do
       let line = input_line stdin in
+      if line <> "" && lock_stage then begin
+        toks := Array.of_list (Stdlib.List.filter (fun s -> s <> "") (String.split_on_char ' ' line));
+        pos := 0;
+        let id = next () in
+        run_lock_line id
+      end else
       if line <> "" && fk_stage then begin
         toks := Array.of_list (Stdlib.List.filter (fun s -> s <> "") (String.split_on_char ' ' line));
         pos := 0;
